@@ -40,10 +40,42 @@ def generate(rng, tier):
     # registered readers, concurrently
     for i in range(24 if tier == "thorough" else 12):
         base.append(f"readfile {'AB'[i % 2]} {rng.choice([1, 100, 5000])} {rng.getrandbits(20)}")
+    # decodes of existing streams of EVERY bitstream version (small testdata files: 1.1, 1.2, 2.0, 2.1, 2.2, 2.3): what
+    # one instance returns must not depend on which versions other instances of the process have decoded before;
+    # the frozen decode of the corpus is the run-alone reference
+    from . import corpus as K, C11
+    idx, streams, decodes, _ = K.load()
+    own = {}      # op line -> property oracle on the line's own result, whatever ran before it in the process
+    legacy = [e for e in idx["entries"] if e["kind"] == "legacy" and e["size"] < 3000 and e.get("decode_status") == "ok"
+              and not e["name"].startswith(("legacy/kdlegacy", "legacy/splitrich"))]
+    rng.shuffle(legacy)
+    for e in legacy[:14 if tier == "thorough" else 10]:
+        l = "dec - " + streams[e["name"]].hex()
+        base.append(l)
+
+        def frozen(hout, case, want=decodes[e["name"]], name=e["name"]):
+            if hout != want:
+                return ("instance-result-depends-on-process-history",
+                        f"decoding corpus stream {name} in a process that has decoded other streams gives `{hout[:120]}`, alone (frozen decode) `{want[:120]}`")
+            return None
+        own[l] = frozen
+    # metadata encoders: valid trees with sub-metadata next to trees the encoder must refuse (over-long name, nesting
+    # beyond the limit) — a refusal in one instance must leave the other instances alone
+    for i in range(16 if tier == "thorough" else 8):
+        if i % 4 == 3:
+            node = C11.chain(1002) if rng.random() < 0.5 else C11.Node({}, {b"s": C11.Node({b"n" * 300: b"x"}, {})})
+        else:
+            node = C11.Node({b"a": b"1"}, {b"s%d" % i: C11.rand_node(rng, rng.choice([1, 2, 3]))})
+        l = f"md {node.text()}"
+        base.append(l)
+        own[l] = C11.md_oracle(node, 0)
+    rng.shuffle(base)
     cases = []
     seq = []
     for l in base:
-        c = Case(l, model=False, flavour="plain", tags=("sequential_reference",))
+        c = Case(l, model=False, flavour="plain", tags=("sequential_reference",) + (("own-oracle",) if l in own else ()))
+        if l in own:
+            c.oracle = own[l]
         seq.append(c)
         cases.append(c)
     rounds = 6 if tier == "thorough" else 2
